@@ -438,9 +438,12 @@ class Gen:
         L = blk.lines
         progs = [('tp', 'prog')]
         progs += [(a[0], a[1]) for a in avail if a[1] in ('exe', 'ct')]
+        block_envs = []
         for _ in range(rng.randint(0, 3)):
             k = self.uid()
             name = 'test%d' % k
+            if rng.random() < 0.2:
+                name = rng.choice(['test %d with blanks', 't\u00e9st%d', 'test-%d.x+y', '%d'])  % k      # unusual but legal names
             fn = 'benchmark' if rng.random() < 0.2 else 'test'
             p, pk = rng.choice(progs)
             prog = p if pk != 'ct' or rng.random() < 0.5 else p + '[0]'
@@ -465,9 +468,14 @@ class Gen:
                 kw.append('env: {%s}' % ', '.join('%s: %s' % (mstr(x), mstr(rng.choice(VAL_POOL))) for x in keys))
             elif c < 0.45:
                 kw.append('env: %s' % mlist([mstr('%s=%s' % (x, rng.choice(VAL_POOL))) for x in keys]))
-            elif c < 0.65:
+            elif c < 0.75 and block_envs and rng.random() < 0.5:
+                kw.append('env: %s' % rng.choice(block_envs))       # ONE environment() object shared by several tests
+            elif c < 0.75:
                 ev = 'env%d' % k
+                block_envs.append(ev)
                 L.append('%s = environment()' % ev)
+                if rng.random() < 0.25:
+                    L.append("%s.unset('C15_UNSET')" % ev)
                 for x in keys:
                     op = rng.choice(['set', 'append', 'prepend'])
                     vals = [mstr(rng.choice(VAL_POOL)) for _ in range(rng.randint(1, 2))]
@@ -491,6 +499,8 @@ class Gen:
                 kw.append('is_parallel: false')
             if rng.random() < 0.2:
                 kw.append('priority: %d' % rng.randint(-2, 5))
+            if rng.random() < 0.2:
+                kw.append('timeout: %d' % rng.choice([0, -1, 5, 100]))
             L.append('%s(%s, %s%s)' % (fn, mstr(name), prog, ''.join(', ' + x for x in kw)))
             self.test_names.append(name)
 
@@ -603,6 +613,56 @@ class Gen:
         if self.flat:
             self.setup_args.append('--layout=flat')
         return self
+
+
+FEATURES = [('custom_target', r'custom_target\('), ('ct indexed input', r'input: \[[^\]]*ct\d+\['), ('ct generator input', r'input: \[[^\]]*g\.process'),
+            ('build_subdir', r'build_subdir:'), ('install_tag', r'install_tag:'), ('install_dir list with false', r"install_dir: \[[^\]]*false"),
+            ('install_dir via option', r"install_dir: get_option"), ('executable', r'= executable\('), ('shared_library', r'= shared_library\('),
+            ('both_libraries', r'= both_libraries\('), ('shared_module', r'= shared_module\('), ('static_library', r'= static_library\('),
+            ('versioned library', r"soversion:"), ('run_target', r'run_target\('), ('alias_target', r'alias_target\('),
+            ('install_headers', r'install_headers\('), ('install_man', r'install_man\('), ('man locale', r'locale:'), ('install_data', r'install_data\('),
+            ('data rename', r'rename:'), ('preserve_path', r'preserve_path: true'), ('install_subdir', r'install_subdir\('),
+            ('strip_directory', r'strip_directory: true'), ('exclude', r'exclude_(files|directories):'), ('install_emptydir', r'install_emptydir\('),
+            ('install_symlink', r'install_symlink\('), ('configure_file', r'configure_file\('), ('fs.read', r'fs\.read\('),
+            ('version file', r"version: files"), ('test', r'(?m)^test\('), ('benchmark', r'(?m)^benchmark\('), ('test on built exe/ct', r'(?m)^(test|benchmark)\([^,]*, (bt|ct)'),
+            ('test target args', r'args: \[[^\]]*(ct|bt)\d+'), ('env dict', r'env: \{'), ('env list', r"env: \['"), ('environment() object', r'= environment\(\)'),
+            ('shared environment() object', None), ('env append/prepend', r'\.(append|prepend)\('), ('env separator', r'separator:'), ('env unset', r'\.unset\('),
+            ('suite', r'suite:'), ('depends', r'(?m)^(test|benchmark)\(.*depends:'), ('workdir', r'workdir:'), ('is_parallel', r'is_parallel:'),
+            ('priority', r'priority:'), ('timeout', r'timeout:'), ('unusual test name', r"(?m)^(test|benchmark)\('(test \d+ with|t\u00e9st|test-\d+\.x|\d+')"),
+            ('subdir', r'(?m)^subdir\('), ('unentered subdir', r"nonexistent"), ('subproject', r'(?m)^subproject\('), ('yield option', r'yield: true'),
+            ('option file', None), ('default_options', r'default_options:')]
+
+
+def coverage(gens):
+    """What the generator produced how often (projects having it / occurrences): gaps become visible."""
+    table = {}
+    for g in gens:
+        text = '\n'.join(v for k, v in g['files'].items() if k.endswith(('meson.build', 'meson.options', 'meson_options.txt')))
+        for name, rx in FEATURES:
+            if rx is None:
+                if name == 'option file':
+                    n = sum(1 for k in g['files'] if k.endswith(('meson.options', 'meson_options.txt')))
+                else:
+                    envs = re.findall(r'env: (env\d+)', text)
+                    n = len(envs) - len(set(envs))
+            else:
+                n = len(re.findall(rx, text))
+            t = table.setdefault(name, [0, 0])
+            t[0] += 1 if n else 0
+            t[1] += n
+        for a in g['setup_args']:
+            key = 'setup ' + ('--layout=flat' if a == '--layout=flat' else '--prefix' if a.startswith('--prefix') else
+                              '-Dsub:builtin override' if re.match(r'-Dsp\d:(?!o_)', a) else '-Dsub:user option' if re.match(r'-Dsp\d:o_', a) else
+                              '-Duser option' if a.startswith('-Do_') else '-Dbuiltin')
+            t = table.setdefault(key, [0, 0])
+            t[1] += 1
+        for key in {'setup ' + ('--layout=flat' if a == '--layout=flat' else '') for a in g['setup_args']} - {'setup '}:
+            table[key][0] += 1
+        if g.get('configure_args'):
+            t = table.setdefault('later meson configure', [0, 0])
+            t[0] += 1
+            t[1] += len(g['configure_args'])
+    return {k: {'projects': v[0], 'occurrences': v[1]} for k, v in table.items()}
 
 
 def gen_project(rng, idx, use_c, dup=False, big=False):
